@@ -778,9 +778,6 @@ Lemma sc_sl_done_close_stream (c : sconn hstate) s : sc_sl_done (close_stream c 
 Lemma sc_closer_close_stream (c : sconn hstate) s : sc_closer (close_stream c s) = sc_closer c. Proof. sc_unf. Qed.
 Lemma sc_wl_dead_close_stream (c : sconn hstate) s : sc_wl_dead (close_stream c s) = sc_wl_dead c. Proof. sc_unf. Qed.
 Lemma sc_now_close_stream (c : sconn hstate) s : sc_now (close_stream c s) = sc_now c. Proof. sc_unf. Qed.
-Lemma sc_discardID_close_stream (c : sconn hstate) s : sc_discardID (close_stream c s) = sc_discardID c. Proof. sc_unf. Qed.
-Lemma sc_discardPrev_close_stream (c : sconn hstate) s : sc_discardPrev (close_stream c s) = sc_discardPrev c. Proof. sc_unf. Qed.
-Lemma sc_discardFields_close_stream (c : sconn hstate) s : sc_discardFields (close_stream c s) = sc_discardFields c. Proof. sc_unf. Qed.
 Lemma sc_gone_put (c : sconn hstate) x : sc_gone (put c x) = sc_gone c. Proof. sc_unf. Qed.
 Lemma sc_open_put (c : sconn hstate) x : sc_open (put c x) = sc_open c. Proof. sc_unf. Qed.
 Lemma sc_initWin_put (c : sconn hstate) x : sc_initWin (put c x) = sc_initWin c. Proof. sc_unf. Qed.
@@ -1010,24 +1007,24 @@ End Proj.
 #[export] Hint Rewrite @sc_expectCont_release_stream @sc_readerQ_release_stream @sc_rl_done_release_stream @sc_sl_done_release_stream @sc_closer_release_stream @sc_wl_dead_release_stream @sc_now_release_stream @sc_discardID_release_stream : sc.
 #[export] Hint Rewrite @sc_discardPrev_release_stream @sc_discardFields_release_stream @sc_initWin_close_stream @sc_lastID_close_stream @sc_highestID_close_stream @sc_clientWindow_close_stream @sc_currentWindow_close_stream @sc_enc_close_stream : sc.
 #[export] Hint Rewrite @sc_dec_close_stream @sc_closing_close_stream @sc_closeRef_close_stream @sc_expectCont_close_stream @sc_readerQ_close_stream @sc_rl_done_close_stream @sc_sl_done_close_stream @sc_closer_close_stream : sc.
-#[export] Hint Rewrite @sc_wl_dead_close_stream @sc_now_close_stream @sc_discardID_close_stream @sc_discardPrev_close_stream @sc_discardFields_close_stream @sc_gone_put @sc_open_put @sc_initWin_put : sc.
-#[export] Hint Rewrite @sc_ring_put @sc_oldest_put @sc_lastID_put @sc_highestID_put @sc_clientWindow_put @sc_currentWindow_put @sc_enc_put @sc_dec_put : sc.
-#[export] Hint Rewrite @sc_closing_put @sc_closeRef_put @sc_expectCont_put @sc_readerQ_put @sc_rl_done_put @sc_sl_done_put @sc_closer_put @sc_wl_dead_put : sc.
-#[export] Hint Rewrite @sc_now_put @sc_discardID_put @sc_discardPrev_put @sc_discardFields_put @sc_out_put @sc_strms_credit_conn_window @sc_gone_credit_conn_window @sc_open_credit_conn_window : sc.
-#[export] Hint Rewrite @sc_initWin_credit_conn_window @sc_ring_credit_conn_window @sc_oldest_credit_conn_window @sc_lastID_credit_conn_window @sc_highestID_credit_conn_window @sc_clientWindow_credit_conn_window @sc_enc_credit_conn_window @sc_dec_credit_conn_window : sc.
-#[export] Hint Rewrite @sc_closing_credit_conn_window @sc_closeRef_credit_conn_window @sc_expectCont_credit_conn_window @sc_readerQ_credit_conn_window @sc_rl_done_credit_conn_window @sc_sl_done_credit_conn_window @sc_closer_credit_conn_window @sc_wl_dead_credit_conn_window : sc.
-#[export] Hint Rewrite @sc_now_credit_conn_window @sc_discardID_credit_conn_window @sc_discardPrev_credit_conn_window @sc_discardFields_credit_conn_window @sc_strms_consume_recv_window @sc_gone_consume_recv_window @sc_open_consume_recv_window @sc_initWin_consume_recv_window : sc.
-#[export] Hint Rewrite @sc_ring_consume_recv_window @sc_oldest_consume_recv_window @sc_lastID_consume_recv_window @sc_highestID_consume_recv_window @sc_clientWindow_consume_recv_window @sc_enc_consume_recv_window @sc_dec_consume_recv_window @sc_closing_consume_recv_window : sc.
-#[export] Hint Rewrite @sc_closeRef_consume_recv_window @sc_expectCont_consume_recv_window @sc_readerQ_consume_recv_window @sc_rl_done_consume_recv_window @sc_sl_done_consume_recv_window @sc_closer_consume_recv_window @sc_wl_dead_consume_recv_window @sc_now_consume_recv_window : sc.
-#[export] Hint Rewrite @sc_discardID_consume_recv_window @sc_discardPrev_consume_recv_window @sc_discardFields_consume_recv_window @sc_strms_rl_exit @sc_gone_rl_exit @sc_open_rl_exit @sc_initWin_rl_exit @sc_ring_rl_exit : sc.
-#[export] Hint Rewrite @sc_oldest_rl_exit @sc_lastID_rl_exit @sc_highestID_rl_exit @sc_clientWindow_rl_exit @sc_currentWindow_rl_exit @sc_enc_rl_exit @sc_dec_rl_exit @sc_closing_rl_exit : sc.
-#[export] Hint Rewrite @sc_closeRef_rl_exit @sc_expectCont_rl_exit @sc_readerQ_rl_exit @sc_sl_done_rl_exit @sc_closer_rl_exit @sc_wl_dead_rl_exit @sc_now_rl_exit @sc_discardID_rl_exit : sc.
-#[export] Hint Rewrite @sc_discardPrev_rl_exit @sc_discardFields_rl_exit @sc_strms_forward @sc_gone_forward @sc_open_forward @sc_initWin_forward @sc_ring_forward @sc_oldest_forward : sc.
-#[export] Hint Rewrite @sc_lastID_forward @sc_highestID_forward @sc_clientWindow_forward @sc_currentWindow_forward @sc_enc_forward @sc_dec_forward @sc_closing_forward @sc_closeRef_forward : sc.
-#[export] Hint Rewrite @sc_expectCont_forward @sc_sl_done_forward @sc_closer_forward @sc_wl_dead_forward @sc_now_forward @sc_discardID_forward @sc_discardPrev_forward @sc_discardFields_forward : sc.
-#[export] Hint Rewrite @sc_strms_brk @sc_gone_brk @sc_open_brk @sc_initWin_brk @sc_ring_brk @sc_oldest_brk @sc_lastID_brk @sc_highestID_brk : sc.
-#[export] Hint Rewrite @sc_clientWindow_brk @sc_currentWindow_brk @sc_enc_brk @sc_dec_brk @sc_closing_brk @sc_closeRef_brk @sc_expectCont_brk @sc_readerQ_brk : sc.
-#[export] Hint Rewrite @sc_rl_done_brk @sc_closer_brk @sc_wl_dead_brk @sc_now_brk @sc_discardID_brk @sc_discardPrev_brk @sc_discardFields_brk : sc.
+#[export] Hint Rewrite @sc_wl_dead_close_stream @sc_now_close_stream @sc_gone_put @sc_open_put @sc_initWin_put @sc_ring_put @sc_oldest_put @sc_lastID_put : sc.
+#[export] Hint Rewrite @sc_highestID_put @sc_clientWindow_put @sc_currentWindow_put @sc_enc_put @sc_dec_put @sc_closing_put @sc_closeRef_put @sc_expectCont_put : sc.
+#[export] Hint Rewrite @sc_readerQ_put @sc_rl_done_put @sc_sl_done_put @sc_closer_put @sc_wl_dead_put @sc_now_put @sc_discardID_put @sc_discardPrev_put : sc.
+#[export] Hint Rewrite @sc_discardFields_put @sc_out_put @sc_strms_credit_conn_window @sc_gone_credit_conn_window @sc_open_credit_conn_window @sc_initWin_credit_conn_window @sc_ring_credit_conn_window @sc_oldest_credit_conn_window : sc.
+#[export] Hint Rewrite @sc_lastID_credit_conn_window @sc_highestID_credit_conn_window @sc_clientWindow_credit_conn_window @sc_enc_credit_conn_window @sc_dec_credit_conn_window @sc_closing_credit_conn_window @sc_closeRef_credit_conn_window @sc_expectCont_credit_conn_window : sc.
+#[export] Hint Rewrite @sc_readerQ_credit_conn_window @sc_rl_done_credit_conn_window @sc_sl_done_credit_conn_window @sc_closer_credit_conn_window @sc_wl_dead_credit_conn_window @sc_now_credit_conn_window @sc_discardID_credit_conn_window @sc_discardPrev_credit_conn_window : sc.
+#[export] Hint Rewrite @sc_discardFields_credit_conn_window @sc_strms_consume_recv_window @sc_gone_consume_recv_window @sc_open_consume_recv_window @sc_initWin_consume_recv_window @sc_ring_consume_recv_window @sc_oldest_consume_recv_window @sc_lastID_consume_recv_window : sc.
+#[export] Hint Rewrite @sc_highestID_consume_recv_window @sc_clientWindow_consume_recv_window @sc_enc_consume_recv_window @sc_dec_consume_recv_window @sc_closing_consume_recv_window @sc_closeRef_consume_recv_window @sc_expectCont_consume_recv_window @sc_readerQ_consume_recv_window : sc.
+#[export] Hint Rewrite @sc_rl_done_consume_recv_window @sc_sl_done_consume_recv_window @sc_closer_consume_recv_window @sc_wl_dead_consume_recv_window @sc_now_consume_recv_window @sc_discardID_consume_recv_window @sc_discardPrev_consume_recv_window @sc_discardFields_consume_recv_window : sc.
+#[export] Hint Rewrite @sc_strms_rl_exit @sc_gone_rl_exit @sc_open_rl_exit @sc_initWin_rl_exit @sc_ring_rl_exit @sc_oldest_rl_exit @sc_lastID_rl_exit @sc_highestID_rl_exit : sc.
+#[export] Hint Rewrite @sc_clientWindow_rl_exit @sc_currentWindow_rl_exit @sc_enc_rl_exit @sc_dec_rl_exit @sc_closing_rl_exit @sc_closeRef_rl_exit @sc_expectCont_rl_exit @sc_readerQ_rl_exit : sc.
+#[export] Hint Rewrite @sc_sl_done_rl_exit @sc_closer_rl_exit @sc_wl_dead_rl_exit @sc_now_rl_exit @sc_discardID_rl_exit @sc_discardPrev_rl_exit @sc_discardFields_rl_exit @sc_strms_forward : sc.
+#[export] Hint Rewrite @sc_gone_forward @sc_open_forward @sc_initWin_forward @sc_ring_forward @sc_oldest_forward @sc_lastID_forward @sc_highestID_forward @sc_clientWindow_forward : sc.
+#[export] Hint Rewrite @sc_currentWindow_forward @sc_enc_forward @sc_dec_forward @sc_closing_forward @sc_closeRef_forward @sc_expectCont_forward @sc_sl_done_forward @sc_closer_forward : sc.
+#[export] Hint Rewrite @sc_wl_dead_forward @sc_now_forward @sc_discardID_forward @sc_discardPrev_forward @sc_discardFields_forward @sc_strms_brk @sc_gone_brk @sc_open_brk : sc.
+#[export] Hint Rewrite @sc_initWin_brk @sc_ring_brk @sc_oldest_brk @sc_lastID_brk @sc_highestID_brk @sc_clientWindow_brk @sc_currentWindow_brk @sc_enc_brk : sc.
+#[export] Hint Rewrite @sc_dec_brk @sc_closing_brk @sc_closeRef_brk @sc_expectCont_brk @sc_readerQ_brk @sc_rl_done_brk @sc_closer_brk @sc_wl_dead_brk : sc.
+#[export] Hint Rewrite @sc_now_brk @sc_discardID_brk @sc_discardPrev_brk @sc_discardFields_brk : sc.
 (* END GENERATED *)
 
 (* ---------- stream table ---------- *)
@@ -1227,54 +1224,50 @@ Proof. reflexivity. Qed.
 Definition closed_body (s : stream) : stream :=
   set_snd s (mkSnd (st_window s) (st_pending s) (st_pendingEnd s) None (st_bodySize s) (st_bodyRead s)).
 
+(* the reset-in-mid-header-block adjustment of closeStream: only the discard registers change *)
+Definition close_discard c (s : stream) : sconn hstate :=
+  if st_weReset s && negb (st_headersFinished s) && negb (sc_discardID c =? st_id s)
+  then upd_discard c (st_id s) (st_prev s) (st_blockFields s) else c.
+
 Lemma close_stream_eq c s :
   close_stream c s =
-  let c2 := upd_strms (mark_closed c (st_id s) (st_weReset s)) (strms_del (sc_strms c) (st_id s)) in
+  let c2 := close_discard (upd_strms (mark_closed c (st_id s) (st_weReset s)) (strms_del (sc_strms c) (st_id s))) s in
   if st_handlerRunning s
   then upd_gone c2 (set_flags (closed_body s) (st_responded s) true true :: sc_gone c)
   else release_stream c2 (closed_body s).
 Proof.
-  unfold close_stream, closed_body.
+  unfold close_stream, closed_body, close_discard.
   replace (sc_strms (mark_closed c (st_id s) (st_weReset s))) with (sc_strms c) by (symmetry; sc_unf).
-  replace (sc_gone (upd_strms (mark_closed c (st_id s) (st_weReset s)) (strms_del (sc_strms c) (st_id s))))
-    with (sc_gone c) by (symmetry; sc_unf).
+  cbv zeta.
+  match goal with |- context [upd_gone ?X (?h :: sc_gone ?X)] =>
+    replace (sc_gone X) with (sc_gone c) by (symmetry; unfold mark_closed; sc_split_ifs; reflexivity) end.
   reflexivity.
 Qed.
 
+Ltac close_tac := rewrite close_stream_eq; cbv zeta; unfold close_discard, release_stream, note, mark_closed, closed_body;
+  cbn [set_snd st_orig st_id st_handlerRunning];
+  sc_split_ifs; sc_cbn; first [reflexivity | congruence].
+
 Lemma sc_strms_close_stream c s : sc_strms (close_stream c s) = strms_del (sc_strms c) (st_id s).
-Proof. rewrite close_stream_eq. cbv zeta. destruct (st_handlerRunning s); [reflexivity|]. unfold release_stream, note. sc_split_ifs; reflexivity. Qed.
+Proof. close_tac. Qed.
 
 Lemma sc_gone_close_stream c s :
   sc_gone (close_stream c s) =
   if st_handlerRunning s then set_flags (closed_body s) (st_responded s) true true :: sc_gone c else sc_gone c.
-Proof.
-  rewrite close_stream_eq. cbv zeta. destruct (st_handlerRunning s); [reflexivity|].
-  unfold release_stream, note, mark_closed. sc_split_ifs; reflexivity.
-Qed.
+Proof. close_tac. Qed.
 
 Lemma sc_open_close_stream c s :
   sc_open (close_stream c s) =
   if st_handlerRunning s then sc_open c
   else if fkind_eqb (st_orig s) KHeaders then (sc_open c - 1)%Z else sc_open c.
-Proof.
-  rewrite close_stream_eq. cbv zeta. destruct (st_handlerRunning s).
-  - unfold mark_closed. sc_split_ifs; reflexivity.
-  - rewrite sc_open_release_stream. unfold mark_closed. cbn [closed_body set_snd st_orig]. sc_split_ifs; reflexivity.
-Qed.
+Proof. close_tac. Qed.
 
 Lemma sc_out_close_stream c s :
   sc_out (close_stream c s) = if st_handlerRunning s then sc_out c else ORelease (st_id s) true :: sc_out c.
-Proof.
-  rewrite close_stream_eq. cbv zeta. destruct (st_handlerRunning s).
-  - unfold mark_closed. sc_split_ifs; reflexivity.
-  - rewrite sc_out_release_stream. unfold mark_closed. sc_split_ifs; reflexivity.
-Qed.
+Proof. close_tac. Qed.
 
 Lemma sc_ring_close_stream c s : sc_ring (close_stream c s) = sc_ring (mark_closed c (st_id s) (st_weReset s)).
-Proof.
-  rewrite close_stream_eq. cbv zeta. destruct (st_handlerRunning s); [reflexivity|].
-  unfold release_stream, note. sc_split_ifs; reflexivity.
-Qed.
+Proof. close_tac. Qed.
 
 Lemma sc_rl_done_rl_exit c why : sc_rl_done (rl_exit c why) = true.
 Proof. reflexivity. Qed.
